@@ -23,7 +23,7 @@ ASSUMES = ["exact arithmetic in the theorems (6-decimal rounding of gradient par
            "scope of the property: with bounding-box units the shape's geometry is not altered by clipping or stroking"]
 SVGNS = 'http://www.w3.org/2000/svg'
 XL = 'http://www.w3.org/1999/xlink'
-HEAD = f'<svg xmlns="{SVGNS}" xmlns:xlink="{XL}" viewBox="0 0 32 32">'
+HEAD = f'<svg xmlns="{SVGNS}" xmlns:xlink="{XL}" viewBox="0 0 40 24">'
 
 # ---------------------------------------------------------------- correspondence
 def dy(rng, lo=-8, hi=8, den=4): return F(rng.randint(lo * den, hi * den), den)
@@ -109,13 +109,40 @@ def model_chain(m, chain):
     r = m.call('resolve_chain', [fields, [[[k, v] for k, v in attrs.items()] for _, attrs, _ in chain], [n for _, _, n in chain]])
     return ['ok', [sorted(r[0]), r[1]]]
 
+def gen_from_element(rng):
+    radial = rng.random() < 0.5
+    attrs = {}
+    names = ['cx', 'cy', 'r', 'fx', 'fy', 'fr'] if radial else ['x1', 'y1', 'x2', 'y2']
+    for k in rng.sample(names, rng.randint(0, len(names))):
+        attrs[k] = rng.choice([f'{rng.randint(0, 100)}%', f'{rng.randint(0, 200) / 8}', f'{rng.randint(0, 40)}', '12.5%', '.5', '1e1', 'abc'] if rng.random() < 0.97 else ['abc', '5px'])
+    u = rng.choice([None, 'userSpaceOnUse', 'objectBoundingBox', 'userSpaceOnUse', 'bogus'] if rng.random() < 0.1 else [None, 'userSpaceOnUse', 'objectBoundingBox', 'userSpaceOnUse'])
+    if u: attrs['gradientUnits'] = u
+    return radial, attrs, rng.choice([(40, 24), (32, 32), (10, 100)])
+
+def impl_from_element(radial, attrs, vb):
+    from picosvg.svg_types import SVGLinearGradient, SVGRadialGradient
+    tag = 'radialGradient' if radial else 'linearGradient'
+    el = etree.fromstring(f'<{tag} xmlns="{SVGNS}" id="g"' + ''.join(f' {k}="{v}"' for k, v in attrs.items()) + '/>')
+    try: g = (SVGRadialGradient if radial else SVGLinearGradient).from_element(el, Rect(0, 0, *vb))
+    except ValueError: return ['err', 'ValueError']
+    if radial: return ['ok', [[F(g.cx), F(g.cy)], [F(g.fx), F(g.fy)], F(g.r), F(g.fr), g.gradientUnits == 'objectBoundingBox']]
+    return ['ok', [[F(g.x1), F(g.y1)], [F(g.x2), F(g.y2)], F(0), F(0), g.gradientUnits == 'objectBoundingBox']]
+
 def corr(ctx):
     rng = ctx.rng
-    m = ctx.model()
+    from wire import math_oracle
+    m = ctx.model([math_oracle])
     stats = {'evaluations': 0, 'nontrivial': set(), 'samples': [], 'disagreements': [], 'distribution': {}}
     for i in range(ctx.n(400, 6000)):
         stats['evaluations'] += 1
-        if i % 3:
+        if i % 4 == 3:
+            radial, attrs, vb = gen_from_element(rng)
+            impl = impl_from_element(radial, attrs, vb)
+            mod = m.call('gradient_from_element', [radial, [[k, v] for k, v in attrs.items()], F(vb[0]), F(vb[1])])
+            name, inp = 'gradient_from_element', [radial, attrs, list(vb)]
+            same = close(canon(impl), canon(mod), F(1, 10**9)) if impl[0] == 'ok' and mod[0] == 'ok' else canon(impl) == canon(mod)
+            nt = any(v.endswith('%') for v in attrs.values())
+        elif i % 3:
             g, bbox, ctm = gen_grad_case(rng)
             impl = impl_transformed(g, bbox, ctm)
             mod = m.call('transformed_gradient', [wire_grad(g), list(bbox), list(ctm)])
@@ -154,7 +181,8 @@ def gen_doc(rng):
         if units: a += f' gradientUnits="{units}"'
         if radial:
             for k in rng.sample(['cx', 'cy', 'r'], rng.randint(1, 3)): a += f' {k}="{num_or_pct(4, 28, ub) if k != "r" else (str(rng.randint(3, 8) / 8) if ub else str(rng.randint(6, 20)))}"'
-            if rng.random() < 0.3: a += f' fx="{"0.45" if ub else "14"}" fy="{"0.55" if ub else "15"}"' if 'cx=' not in a and 'cy=' not in a and ' r=' not in a else ''
+            if rng.random() < 0.3: a += f' fx="{"0.45" if ub else "19"}" fy="{"0.55" if ub else "13"}"' if 'cx=' not in a and 'cy=' not in a and ' r=' not in a else ''
+            if rng.random() < 0.25: a += f' fr="{rng.choice(["10%", "5%"]) if rng.random() < 0.6 else ("0.05" if ub else "2")}"'
         else:
             for k in rng.sample(['x1', 'y1', 'x2', 'y2'], rng.randint(1, 4)): a += f' {k}="{num_or_pct(0, 32, ub)}"'
         if rng.random() < 0.5: a += ' gradientTransform="%s"' % rng.choice(['translate(2,3)', 'rotate(30)', 'scale(1.5,0.75)', 'translate(1,1) rotate(20) scale(0.9)', 'matrix(1 0.2 -0.1 1 0.5 0)', 'skewX(20)'] if not ub else
@@ -168,6 +196,7 @@ def gen_doc(rng):
         grads.append(f'<{tag}{a}>{stops}</{tag}>'); ids.append(gid)
         return gid
     for _ in range(rng.randint(1, 3)): gradient()
+    if len(grads) > 1 and rng.random() < 0.5: grads.reverse()      # templates after their users as well as before
     def tf(): return ' transform="%s"' % rng.choice(['translate(3,2)', 'scale(1.25,0.75)', 'rotate(15 16 16)', 'matrix(1 0 0.3 1 0 0)', 'translate(-2,1) scale(0.9)', 'rotate(90 16 16)'])
     def shape():
         x, y = rng.randint(2, 12), rng.randint(2, 12)
